@@ -105,6 +105,8 @@ pub struct EndpointOpts {
     pub dual_stack: bool,
     /// reverse proxy: origin address, path mask, and the reverse-proxy host name
     pub reverse_proxy: Option<(SocketAddr, String, String)>,
+    /// tcp_connections_timeout (idle timeout of tunnels); None = the default
+    pub tcp_timeout: Option<Duration>,
 }
 
 impl Default for EndpointOpts {
@@ -121,6 +123,7 @@ impl Default for EndpointOpts {
             rules: None,
             dual_stack: false,
             reverse_proxy: None,
+            tcp_timeout: None,
         }
     }
 }
@@ -181,6 +184,9 @@ pub fn start_endpoint(rt: &tokio::runtime::Runtime, o: &EndpointOpts) -> Endpoin
             .clients(o.clients.iter().map(|(u, p)| Client { username: u.clone(), password: p.clone() }).collect());
         if let Some((origin, mask, _)) = &o.reverse_proxy {
             b = b.reverse_proxy(trusttunnel::settings::ReverseProxySettings::builder().server_address(*origin).unwrap().path_mask(mask.clone()).build().expect("reverse proxy settings"));
+        }
+        if let Some(t) = o.tcp_timeout {
+            b = b.tcp_connections_timeout(t);
         }
         if let Some(r) = &o.rules {
             b = b.rules_engine(trusttunnel::rules::RulesEngine::from_config(r.clone()));
